@@ -73,7 +73,7 @@ func (r rnode) hash() []byte {
 }
 
 func (r rnode) coq() string {
-	return "(" + vh.Hex(r.Key) + ", " + vh.Hex(r.Hash) + ", " + vh.Bool(r.Empty) + ")"
+	return "(" + vh.BInts(r.Key) + ", " + vh.BInts(r.Hash) + ", " + vh.Bool(r.Empty) + ")"
 }
 
 func coqNodes(rs []rnode) string {
@@ -126,7 +126,7 @@ func (t *htab) H(in []byte) []byte {
 func (t *htab) coq() string {
 	ss := make([]string, len(t.order))
 	for i, k := range t.order {
-		ss[i] = "(" + vh.Hex([]byte(k)) + ", " + vh.Hex(t.m[k]) + ")"
+		ss[i] = "(" + vh.BInts([]byte(k)) + ", " + vh.BInts(t.m[k]) + ")"
 	}
 	return vh.List(ss)
 }
@@ -631,7 +631,7 @@ func (x *run) tree(keys [][]byte, style string, exhaustive bool, modelShare int)
 		p, pok := realExtract(t, key)
 		toModel := n <= 8 || kk%modelShare == 0
 		if toModel {
-			x.cases.Add(fmt.Sprintf("CExtract %s %s %s", coqNodes(t), vh.Hex(key), coqOptNodes(p, pok)),
+			x.cases.Add(fmt.Sprintf("CExtract %s %s %s", coqNodes(t), vh.BInts(key), coqOptNodes(p, pok)),
 				map[string]any{"kind": "extract", "size": n, "index": a, "key_hex": hex.EncodeToString(key), "keys_hex": hexKeys(keys)})
 			res.Dist("model:extract")
 		}
@@ -655,7 +655,7 @@ func (x *run) tree(keys [][]byte, style string, exhaustive bool, modelShare int)
 		addProve := func(k []byte) {
 			v := realProve(p, k)
 			refProveQueries(p, k, ptab)
-			proves = append(proves, vh.Tuple(vh.Hex(k), vh.Bool(v)))
+			proves = append(proves, vh.Tuple(vh.BInts(k), vh.Bool(v)))
 			res.Evaluations++
 			if v && !inTree[string(k)] {
 				rp2 := rp
@@ -703,7 +703,7 @@ func (x *run) tree(keys [][]byte, style string, exhaustive bool, modelShare int)
 			res.Dist("proof-mutation:" + m.Kind)
 			if sel[mi] || n <= 4 {
 				refProveQueries(p2, pk, ptab)
-				pmuts = append(pmuts, vh.Tuple(vh.N(uint64(m.Pos)), m.Node.coq(), vh.Hex(pk), vh.Bool(v)))
+				pmuts = append(pmuts, vh.Tuple(vh.N(uint64(m.Pos)), m.Node.coq(), vh.BInts(pk), vh.Bool(v)))
 			}
 			if !v {
 				continue
@@ -734,7 +734,7 @@ func (x *run) tree(keys [][]byte, style string, exhaustive bool, modelShare int)
 func hexList(keys [][]byte) string {
 	ss := make([]string, len(keys))
 	for i := range keys {
-		ss[i] = vh.Hex(keys[i])
+		ss[i] = vh.BInts(keys[i])
 	}
 	return vh.List(ss)
 }
@@ -800,7 +800,7 @@ func (x *run) proofCase(p []rnode, ks [][]byte, treeKeys [][]byte, style string)
 	for _, k := range ks {
 		v := realProve(p, k)
 		refProveQueries(p, k, tab)
-		proves = append(proves, vh.Tuple(vh.Hex(k), vh.Bool(v)))
+		proves = append(proves, vh.Tuple(vh.BInts(k), vh.Bool(v)))
 		x.res.Count(style+"/"+string(k)+fmt.Sprint(len(p)), true)
 		if v && !inTree[string(k)] {
 			x.res.Fail("proof-forged-membership", "Prove accepts a key that is not in the tree ("+style+")", treeReplay{What: style, Keys: hexKeys(treeKeys), Key: hex.EncodeToString(k), Pf: p})
@@ -815,7 +815,7 @@ func (x *run) proofCase(p []rnode, ks [][]byte, treeKeys [][]byte, style string)
 func main() {
 	o := vh.ParseFlags()
 	res := vh.NewResult("real fixedtree Writer->Tree->ExtractProofMaterial->Proof on trees of 1..2000 nodes (all sizes up to a bound, sampled above), key styles: hash strings, short, arbitrary bytes, common prefixes, concatenations of other keys and hashes; every key's proof (sampled for large trees); every single-node single-field mutation of tree and proof (exhaustive for small trees); non-trivial = tree with more than one node")
-	x := &run{o: o, r: vh.NewRand(o.Seed), res: res, cases: &vh.Cases{Import: "From MV Require Import C12.Model.", Type: "case", CheckFn: "check", Shard: 40}}
+	x := &run{o: o, r: vh.NewRand(o.Seed), res: res, cases: &vh.Cases{Import: "From MV Require Import C12.Model.", Type: "case", CheckFn: "check", Shard: 12}}
 	if o.Replay != "" {
 		var rp treeReplay
 		if err := vh.ReadReplay(o.Replay, &rp); err == nil && len(rp.Keys) > 0 {
